@@ -128,6 +128,7 @@ pub fn real_main() {
             util::set_partition(part, parts);
             let ctx = Ctx { tier, seed, threads, stage: stage.clone(), scale_pct };
             if stage == "miri" {
+                util::INTERPRETED.store(true, std::sync::atomic::Ordering::Relaxed);
                 // the structural table check is done by the native stages; skip it in the interpreter
             } else if let Err(e) = model::tables::self_check() {
                 eprintln!("model table self-check failed: {}", e);
